@@ -92,7 +92,8 @@ def generate(rng: random.Random, batch: dict, depth: int = 0,
     legal = []
     for _ in range(rng.choice([0, 0, 1, 2, 3])):
         legal.append({"kind": rng.choice(
-            ["shuffle_rows", "renumber_bins", "relocate", "rotate_in_place"]),
+            ["shuffle_rows", "renumber_bins", "relocate", "rotate_in_place",
+             "to_new_bin"]),
             "seed": rng.getrandbits(32)})
     store = rng.choice(["log", "text", "array", "array"])
     faults: list = []
@@ -213,6 +214,17 @@ def apply_legal(rows: list, n_bins: int, W: int, H: int, edit: dict):
             if _free(rows, i, b, (lft, bot, lft + w, bot + h)):
                 rows[i] = [r[0], b, lft, bot, lft + w, bot + h]
                 break
+    elif kind == "to_new_bin":
+        # an item moves into a bin of its own (its old bin must stay used)
+        for _ in range(20):
+            i = rnd.randrange(len(rows))
+            r = rows[i]
+            if sum(1 for q in rows if q[1] == r[1]) == 1:
+                continue
+            w, h = r[4] - r[2], r[5] - r[3]
+            n_bins += 1
+            rows[i] = [r[0], n_bins, 0, 0, w, h]
+            break
     elif kind == "rotate_in_place":
         for _ in range(20):
             i = rnd.randrange(len(rows))
